@@ -407,6 +407,21 @@ func runC15(c *Ctx) {
 		if nilio.In(3) != 0 {
 			c.R.Violation("C15/edge/nil-DumbIO", nil)
 		}
+		// Clear empties a memory of ANY size, in place (all references see it empty)
+		for _, n := range []int{0, 1, 255, 1023, 1024, 1025, 4096, 40000, 65536} {
+			big := z80.MapMemory{}
+			for a := 0; a < n; a++ {
+				big.Set(uint16(a*7+3), uint8(a))
+			}
+			alias := big
+			big.Clear()
+			evals++
+			if len(big) != 0 || len(alias) != 0 || !big.Equal(z80.MapMemory{}) || big.Get(3) != 0xc7 || alias.Get(uint16((n-1)*7+3)) != 0xc7 {
+				c.R.Violation("C15/MapMemory/Clear did not empty a large memory", map[string]interface{}{
+					"what": "Clear on a MapMemory left cells behind", "cells_before": n, "cells_after": len(big), "Get(0003)": h8(big.Get(3))})
+				break
+			}
+		}
 		mm := z80.MapMemory{}.Put(0xffff, 1, 2, 3)
 		if mm.Get(0xffff) != 1 || mm.Get(0) != 2 || mm.Get(1) != 3 || mm.Get(2) != 0xc7 {
 			c.R.Violation("C15/edge/MapMemory-Put-wrap", nil)
